@@ -105,7 +105,22 @@ pub fn ops(n: usize) -> Vec<(&'static str, Tab)> {
     if n == 6 {
         v.push(("s3", s3()));
     }
+    if n == 8 {
+        v.push(("xor", Tab::from_fn(8, 8, |a, b| a ^ b)));
+        v.push(("and", Tab::from_fn(8, 8, |a, b| a & b)));
+        v.push(("t2_mul", t2_mul()));
+    }
     v
+}
+
+/// Multiplication of upper-triangular 2x2 matrices over GF(2), [[a,b],[0,c]] encoded as a + 2b + 4c (addition is
+/// xor, one = 5): the smallest non-commutative ring with unity.
+pub fn t2_mul() -> Tab {
+    Tab::from_fn(8, 8, |x, y| {
+        let (a1, b1, c1) = (x & 1, (x >> 1) & 1, (x >> 2) & 1);
+        let (a2, b2, c2) = (y & 1, (y >> 1) & 1, (y >> 2) & 1);
+        (a1 & a2) | (((a1 & b2) ^ (b1 & c2)) << 1) | ((c1 & c2) << 2)
+    })
 }
 
 /// Named (f = addition, g = multiplication, zero, one) candidates on 0..n: rings, fields, semirings and
@@ -132,6 +147,11 @@ pub fn pairs(n: usize) -> Vec<(&'static str, Tab, Tab, u8, u8)> {
     }
     if n == 6 {
         v.push(("add_s3", get("add_mod"), get("s3"), 0, 0));
+    }
+    if n == 8 {
+        v.push(("T2_F2", get("xor"), get("t2_mul"), 0, 5));
+        v.push(("T2_F2_again", get("xor"), get("t2_mul"), 0, 5));
+        v.push(("bool_ring", get("xor"), get("and"), 0, 7));
     }
     v
 }
